@@ -22,6 +22,8 @@ namespace rfc
         std::string body;
         std::vector<size_t> chunks; // sizes of decoded data chunks (chunked only)
         bool chunked   = false;
+        bool hasTransferEncoding = false;
+        std::string lastCoding;
         bool hasLength = false;
         size_t length  = 0;
         size_t consumed = 0; // bytes of input that belong to this message
@@ -133,13 +135,31 @@ namespace rfc
             }
             else if (ln == "transfer-encoding")
             {
-                if (lower(v) != "chunked")
-                    return fail(m, "unsupported transfer coding: " + v);
-                if (m.chunked)
-                    return fail(m, "two Transfer-Encoding headers");
-                m.chunked = true;
+                // the field lines of one name read as one comma-separated list (RFC 7230 3.2.2); the message is framed by
+                // chunked iff chunked is the final coding of that list, and it may be applied only once (3.3.1)
+                size_t p0 = 0;
+                std::string lv = lower(v);
+                while (p0 <= lv.size())
+                {
+                    size_t q       = lv.find(',', p0);
+                    std::string cd = lv.substr(p0, q == std::string::npos ? std::string::npos : q - p0);
+                    size_t b2 = cd.find_first_not_of(" \t"), e2 = cd.find_last_not_of(" \t");
+                    cd = b2 == std::string::npos ? "" : cd.substr(b2, e2 - b2 + 1);
+                    if (cd != "chunked" && cd != "gzip" && cd != "deflate" && cd != "compress" && cd != "identity")
+                        return fail(m, "unsupported transfer coding: " + v);
+                    if (cd == "chunked" && m.chunked)
+                        return fail(m, "chunked applied twice");
+                    m.chunked     = m.chunked || cd == "chunked";
+                    m.lastCoding  = cd;
+                    m.hasTransferEncoding = true;
+                    if (q == std::string::npos)
+                        break;
+                    p0 = q + 1;
+                }
             }
         }
+        if (m.hasTransferEncoding && m.lastCoding != "chunked")
+            return fail(m, "'chunked' is not the final transfer coding announced");
         if (m.chunked && m.hasLength)
             return fail(m, "both Content-Length and Transfer-Encoding");
         if (headRequest)
